@@ -156,7 +156,7 @@ def check(ctx, cfg, prog, mod, rule):
                        'disappears (neither present in the result nor counted as skipped)' % (
                            'the next iteration' if lost == h else 'a return (line %d)' % b.blocks[lost].term.line),
                        site='%s:%d' % (b.file, b.blocks[bind_bb].term.line))
-    ctx.floor('%s: element loops in the dedup family' % rule, 5, n_loops, cfg)
+    ctx.floor('%s: element loops in the dedup family' % rule, 3, n_loops, cfg)
 
 
 ORDER_PREFIX = 'core::delaunay_triangulation::order_vertices_'
